@@ -40,6 +40,7 @@ MODULES = {
     'C17': 'harness.c17',
     'C18': 'harness.c18',
     'C19': 'harness.c19',
+    'C20': 'harness.c20',
 }
 
 
